@@ -1768,6 +1768,13 @@ def write_fault_stage(res, ctx, ntab, lim, be=False):
         ref.Table([], [[(b"Name", ref.Obj(10, [b"c0"]), None)]], [[((1, one), [(b"ErrorCode", (1, e10))])]]),
         ref.Table([], [[(b"Name", ref.Obj(10, [b"c0"]), None)]], [[((1, one), [(b"ErrorCode", (2, e12))])]]),
         ref.Table([], [[(b"Name", ref.Obj(10, [b"c0"]), None)]], [[((1, e10), [])], [((2, e12), [])]]),
+        # fixed-size payloads longer than any small scratch buffer one might introduce (40 doubles, 24
+        # decimals, 300 bools), plain and run-length: a refusal inside the payload itself
+        ref.Table([], [[(b"Name", ref.Obj(10, [b"c0"]), None)], [(b"Name", ref.Obj(10, [b"c1"]), None)]],
+                  [[((1, ref.Obj(5, [struct.pack("<d", i * 1.5) for i in range(40)])), []),
+                    ((2, ref.Obj(13, [bytes([i]) + b"\0" * 15 for i in range(24)])), [])]]),
+        ref.Table([], [[(b"Name", ref.Obj(10, [b"c0"]), None)]],
+                  [[((1, ref.Obj(1, [bytes([i % 2]) for i in range(300)])), [(b"IsInvalid", (3, ref.Obj(1, [bytes([(i // 3) % 2]) for i in range(300)])))])]]),
     ]
     while made < ntab:
         t = special.pop() if special else gen.rtable(r, consistent=True, small=True)
@@ -1968,7 +1975,22 @@ def check_c14(res, ctx):
             scen.append("rtw " + gen.rtable(r, small=True, maxcols=2, maxslices=2).script())
         else:
             scen.append("frw %s %s" % (gen.rphys(r, maxcols=2, maxslices=2).encode().b.hex(), r.choice(["-", "01"])))
-    # systematic part: every element class x every encoding, several distinct elements
+    # systematic part: merges into populated and empty collections (sbdf_md_copy builds up to three
+    # allocations per entry: a fault in the 1st, 2nd, ... entry, with and without defaults)
+    v = "2 1 01000000"
+    sv = "10 1 6162"
+    for nd in (0, 1, 2, 3):
+        for ns in (1, 2, 3, 4):
+            ops = ["md", "new 0", "new 1"]
+            for i in range(ns):
+                ops.append("add 0 %02x %s %s" % (0x61 + i, sv if i % 2 else v, ("1 " + (sv if i % 2 else v)) if i == 1 else "0"))
+            for i in range(nd):
+                ops.append("add 1 %02x %s 0" % (0x71 + i, v))
+            ops += ["copy 0 1", "cnt 1", "ex 1 61", "dump 0", "dump 1", "rm 1 71", "add 1 7a %s 0" % v, "dump 1"]
+            l = " ".join(ops)
+            mdops[l] = ops
+            scen.append(l)
+    # every element class x every encoding, several distinct elements
     for tid in (1, 2, 13, 10, 12):
         for enc in (0, 1, 2, 3):
             els = [gen.relem(r, tid) for _ in range(3)]
